@@ -796,11 +796,14 @@ def get_calc_dataset_wien2k(
     wien2k_P1_mode=False,
     symmetry_tolerance=None,
     verbose=False,
+    force_sets_zero_mode=False,
 ):
     """Read Wien2k output files and parse force sets."""
     from phonopy.interface.wien2k import parse_set_of_forces
 
     disps, _ = get_displacements_and_forces(disp_dataset)
+    if force_sets_zero_mode:  # the first file is the perfect supercell
+        disps = np.concatenate([np.zeros_like(disps[:1]), disps])
     force_sets = parse_set_of_forces(
         disps,
         force_filenames,
